@@ -161,50 +161,64 @@ Definition adjacent (a b : tokp) : bool := (tline a =? tline b) && (tcol a + 1 =
 Definition setstr (t : tokp) (s : str) : tokp := mkTok s (tline t) (tcol t) (tcomment t).
 Definition last_char (s : str) : N := last s 0.
 
-(* prev = the previous token of the (already processed) output, fuel = structural on the remaining list *)
+(* what combineOperators does at token t (r = the tokens after it); non-recursive *)
+Inductive act := AUnsup | AKeep | AMerge2 (s : str) | AMerge3 (s : str) | AEllipsis.
+
+Definition decide (prev_num : bool) (t : tokp) (r : list tokp) : act :=
+  let o := op_of t in
+  let next_num := match r with n :: _ => tok_is_number n | [] => false end in
+  if (o =? 46) && (prev_num || next_num) then AUnsup                          (* float literal assembly *)
+  else if tok_is_number t && one_of (last_char (tstr t)) [69; 101; 80; 112] &&
+          match r with n :: _ => one_of (op_of n) [43; 45] | [] => false end then AUnsup
+  else
+  match r with
+  | [] => AKeep
+  | n :: r2 =>
+      let o2 := op_of n in
+      if (o =? 46) && (o2 =? 46) && (tcol n =? tcol t + 1) &&
+         match r2 with n2 :: _ => (op_of n2 =? 46) && (tcol n2 =? tcol t + 2) | [] => false end
+      then AEllipsis
+      else if (o =? 0) || (o2 =? 0) || negb (adjacent t n) then AKeep
+      else if (o2 =? 61) && one_of o [61; 33; 60; 62; 43; 45; 42; 47; 37; 38; 124; 94] then
+        if o =? 38 then AUnsup                                                 (* and-assign: context heuristic *)
+        else AMerge2 [o; 61]
+      else if ((o =? 124) || (o =? 38)) && (o =? o2) then AMerge2 [o; o]
+      else if (o =? 58) && (o2 =? 58) then AMerge2 [58; 58]
+      else if (o =? 45) && (o2 =? 62) then AMerge2 [45; 62]
+      else if ((o =? 60) || (o =? 62)) && (o =? o2) then
+        (* shift, and if followed by a lone = (no adjacency test in the code) shift-assign *)
+        match r2 with
+        | e :: e2 :: _ => if (op_of e =? 61) && negb (op_of e2 =? 61) then AMerge3 [o; o; 61] else AMerge2 [o; o]
+        | _ => AMerge2 [o; o]
+        end
+      else if ((o =? 43) || (o =? 45)) && (o =? o2) then
+        if prev_num then AKeep
+        else if match r2 with n2 :: _ => tok_is_number n2 | [] => false end then AKeep
+        else AMerge2 [o; o]
+      else AKeep
+  end.
+
+(* prev = the previous token of the (already processed) output *)
 Fixpoint combine (prev : option tokp) (l : list tokp) : list tokp :=
   match l with
   | [] => []
   | t :: r =>
-      let o := op_of t in
       let prev_num := match prev with Some p => tok_is_number p | None => false end in
-      let next_num := match r with n :: _ => tok_is_number n | [] => false end in
-      if (o =? 46) && (prev_num || next_num) then [UNSUP]                      (* float literal assembly *)
-      else if tok_is_number t && one_of (last_char (tstr t)) [69; 101; 80; 112] &&
-              match r with n :: _ => one_of (op_of n) [43; 45] | [] => false end then [UNSUP]
-      else
-      match r with
-      | n :: r2 =>
-          let o2 := op_of n in
-          if (o =? 46) && (o2 =? 46) && (tcol n =? tcol t + 1) &&
-             match r2 with n2 :: _ => (op_of n2 =? 46) && (tcol n2 =? tcol t + 2) | [] => false end
-          then match r2 with
-               | _ :: r3 => let t' := setstr t [46; 46; 46] in t' :: combine (Some t') r3
-               | [] => []
-               end
-          else if (o =? 0) || (o2 =? 0) || negb (adjacent t n) then t :: combine (Some t) r
-          else if (o2 =? 61) && one_of o [61; 33; 60; 62; 43; 45; 42; 47; 37; 38; 124; 94] then
-            if o =? 38 then [UNSUP]                                              (* `&=`: context heuristic *)
-            else let t' := setstr t [o; 61] in t' :: combine (Some t') r2
-          else if ((o =? 124) || (o =? 38)) && (o =? o2) then
-            let t' := setstr t [o; o] in t' :: combine (Some t') r2
-          else if (o =? 58) && (o2 =? 58) then let t' := setstr t [58; 58] in t' :: combine (Some t') r2
-          else if (o =? 45) && (o2 =? 62) then let t' := setstr t [45; 62] in t' :: combine (Some t') r2
-          else if ((o =? 60) || (o =? 62)) && (o =? o2) then
-            (* << >> and, if directly followed by a lone =, <<= >>= (no adjacency test in the code) *)
-            match r2 with
-            | e :: ((e2 :: _) as r3) =>
-                if (op_of e =? 61) && negb (op_of e2 =? 61) then
-                  let t' := setstr t [o; o; 61] in t' :: combine (Some t') r3
-                else let t' := setstr t [o; o] in t' :: combine (Some t') r2
-            | _ => let t' := setstr t [o; o] in t' :: combine (Some t') r2
-            end
-          else if ((o =? 43) || (o =? 45)) && (o =? o2) then
-            if prev_num then t :: combine (Some t) r
-            else if match r2 with n2 :: _ => tok_is_number n2 | [] => false end then t :: combine (Some t) r
-            else let t' := setstr t [o; o] in t' :: combine (Some t') r2
-          else t :: combine (Some t) r
-      | [] => [t]
+      match decide prev_num t r with
+      | AUnsup => [UNSUP]
+      | AKeep => t :: combine (Some t) r
+      | AMerge2 s => match r with
+                     | _ :: r2 => let t' := setstr t s in t' :: combine (Some t') r2
+                     | [] => []
+                     end
+      | AMerge3 s => match r with
+                     | _ :: _ :: r3 => let t' := setstr t s in t' :: combine (Some t') r3
+                     | _ => []
+                     end
+      | AEllipsis => match r with
+                     | _ :: _ :: r3 => let t' := setstr t [46; 46; 46] in t' :: combine (Some t') r3
+                     | _ => []
+                     end
       end
   end.
 
@@ -260,5 +274,65 @@ Fixpoint positions (ws : list str) (toks : list stok) (line col : N) : list (N *
   | w :: ws', t :: r =>
       let '(l1, c1) := adjust w line col in
       (l1, c1) :: positions ws' r l1 (c1 + len (stok_str t))
+  | _, _ => []
+  end.
+
+(* ------------------------------------------------------------------ stage 2: two-character operators *)
+Inductive stok2 := TName (w : str) | TOp (c : N) | TOp2 (a b : N).
+
+(* the operators combineOperators builds from one adjacent pair without looking further:
+   == != <= >= += -= *= /= %= |= ^=  || && :: ->   (shifts, ++ --, and-assign, ellipsis: not in this theorem) *)
+Definition S2 : list (N * N) :=
+  [(61, 61); (33, 61); (60, 61); (62, 61); (43, 61); (45, 61); (42, 61); (47, 61); (37, 61); (124, 61); (94, 61);
+   (124, 124); (38, 38); (58, 58); (45, 62)].
+Definition op2_ok (a b : N) : bool := existsb (fun p => (fst p =? a) && (snd p =? b)) S2.
+
+Definition stok2_str (t : stok2) : str := match t with TName w => w | TOp c => [c] | TOp2 a b => [a; b] end.
+Definition stok2_ok (t : stok2) : bool :=
+  match t with
+  | TName w => match w with [] => false | _ => forallb is_name_char w end
+  | TOp c => op_ok c && negb (c =? 46)
+  | TOp2 a b => op2_ok a b
+  end.
+
+(* a separator is needed between two names and between two operators (they could combine) *)
+Definition needs_sep2 (a b : stok2) : bool :=
+  match a, b with
+  | TName _, TName _ => true
+  | TName _, _ => false
+  | _, TName _ => false
+  | _, _ => true
+  end.
+
+Fixpoint sep2_ok (ws : list str) (toks : list stok2) : bool :=
+  match toks, ws with
+  | a :: ((b :: _) as r), _ :: ((w :: _) as ws') =>
+      (negb (needs_sep2 a b) || match w with [] => false | _ => true end) && sep2_ok ws' r
+  | _, _ => true
+  end.
+
+(* 1e + 5 is assembled into one token whatever separates the parts: keep that out *)
+Definition exp_end (w : str) : bool := is_number w && one_of (last_char w) [69; 101; 80; 112].
+Definition starts_pm (t : stok2) : bool :=
+  match t with TOp c => one_of c [43; 45] | TOp2 a _ => one_of a [43; 45] | TName _ => false end.
+Fixpoint no_exp (toks : list stok2) : bool :=
+  match toks with
+  | TName w :: ((b :: _) as r) => negb (exp_end w && starts_pm b) && no_exp r
+  | _ :: r => no_exp r
+  | [] => true
+  end.
+
+Fixpoint render2 (ws : list str) (toks : list stok2) : str :=
+  match ws, toks with
+  | w :: ws', t :: r => w ++ stok2_str t ++ render2 ws' r
+  | w :: _, [] => w
+  | [], _ => []
+  end.
+
+Fixpoint positions2 (ws : list str) (toks : list stok2) (line col : N) : list (N * N) :=
+  match ws, toks with
+  | w :: ws', t :: r =>
+      let '(l1, c1) := adjust w line col in
+      (l1, c1) :: positions2 ws' r l1 (c1 + len (stok2_str t))
   | _, _ => []
   end.
